@@ -99,3 +99,17 @@ Theorem C20_mul_commutes est c x y : form_of x = Finite -> form_of y = Finite ->
   ctx_mul est c x y = ctx_mul est c y x.
 Proof. exact (mul_commutes est c x y). Qed.
 Print Assumptions C20_mul_commutes.
+
+(* negating both operands mirrors the result under the mirrored mode: the exact sum of the negated operands is the negated
+   exact sum (non-zero sums), and the specified result of a negated exact value under the mirrored mode is the specified
+   result with the opposite sign - same coefficient, exponent, Inexact/Subnormal/Overflow, subnormal range and overflow
+   included.  (C01: the model's Add returns the specified result of the exact sum.) *)
+From Apd Require Import Proofs.SpecMirror.
+Theorem C20_negated_operands_negate_the_exact_sum x y sub fm fm' : xnum (exact_add x y sub fm) <> 0 ->
+  exact_add (flip_dec x) (flip_dec y) sub fm' = flip_exact (exact_add x y sub fm).
+Proof. exact (exact_add_flip x y sub fm fm'). Qed.
+Print Assumptions C20_negated_operands_negate_the_exact_sum.
+Theorem C20_negation_mirrors_the_specified_result p emin_ emax_ mode E :
+  spec_round_nz p emin_ emax_ (mirror mode) (flip_exact E) = flip_sround (spec_round_nz p emin_ emax_ mode E).
+Proof. exact (spec_mirror p emin_ emax_ mode E). Qed.
+Print Assumptions C20_negation_mirrors_the_specified_result.
